@@ -41,6 +41,14 @@ CHECKS = {
         note=PROOF_NOTE + "Modelled, not verified: torch broadcasting / indexing / sum over the coil axis (harness flattens to pixels); float rounding, overflow, underflow (extreme magnitudes only exercised against native complex arithmetic); sqrt through squares.",
         technique="Coq proof (ring/field over regenerated expressions in an abstract field, induction over the coil list) + exact correspondence over Q",
         design="§6 C02"),
+    "C03": dict(
+        text="apply_mask / apply_padding / ApplyMaskModule and the masked operators of the engines and blocks (_forward_operator, _backward_operator, MRILogLikelihood.forward, ConjGrad._A_star_op/_A_star_A_op/B_op) are regenerated on every run as operator-expression terms. "
+             "Theorems: masking is selection (value kept where the mask is set, exactly zero elsewhere, idempotent) for any value type - hence verbatim for IEEE values incl. -0.0/inf/NaN; the forward operator's outermost operation is the mask; "
+             "for every regenerated term the k-space input only enters through where0(mask, kspace) (decided by computation), and therefore - by a general non-interference theorem over ALL operator expressions with that shape and arbitrary Fourier/coil/arithmetic functions - "
+             "two k-spaces that agree on the support give identical results; the likelihood masks the prediction term as well. Tied by bit-exact correspondence of the selection model (bool/int/float masks, all broadcast shapes, special values).",
+        note=PROOF_NOTE + "Modelled, not verified: torch.where broadcasting (index table computed by the harness with torch.expand); the mask-function path of apply_mask is checked structurally and by an oracle.",
+        technique="Coq proof (structural induction over an operator-expression IR regenerated from the source; selection lemmas on lists) + bit-exact correspondence",
+        design="§6 C03"),
     "C12": dict(
         text="Theorems for every file list, slice filter (step 1), context size and index: per-volume ranges are contiguous/ordered/partition 0..len-1, the i-th range holds exactly the admissible slices of file i in order, "
              "the context window has 2c+1 entries with entry j = slice s-c+j or a zero slice, and ConcatDataset's negative-index normalisation + bisect_right + offset lands in the member containing the index. "
